@@ -230,6 +230,13 @@ class Cmp:
         c = self.take(cs, f"array `{name}`")
         if c["k"] == "len=" and cs and cs[0]["k"] == "for" and cs[0].get("extra_bound") == "len":
             c = self.take(cs, f"array `{name}`")
+        if c["k"] == "for" and c.get("cursor_bound"):
+            # `&& cursor < end`: harmless for canonical encodings as long as `end` is the end of the buffer the cursor walks
+            want_end = "compression_end" if self.in_zlib else "offset_packet_end"
+            if c["cursor_bound"] != want_end:
+                raise Mismatch(f"line {c['line']}: the loop over `{name}` also stops when the cursor reaches `{c['cursor_bound']}`, but here the cursor walks the "
+                               f"{'decompressed buffer (its end is compression_end; offset_packet_end is a position in the outer packet)' if self.in_zlib else 'packet itself (its end is offset_packet_end)'}: "
+                               "the loop ends early and the remaining elements are never walked")
         if c["k"] == "for" and c.get("extra_bound"):
             # an additional bound on the loop counter is harmless only while it cannot cut the walk short
             if c["extra_bound"] != "len":
